@@ -33,6 +33,12 @@ func TestVerifWitness_DC4(t *testing.T) {
 			t.Fatal(err)
 		}
 	}
+	if b.Containers.Size() == 0 {
+		// newer trees drop emptied containers on a clearing import: put them there directly
+		for k := uint64(0); k < 4; k++ {
+			b.Containers.Put(k, roaring.NewContainerArray(nil))
+		}
+	}
 	if b.Containers.Size() != 4 || b.Count() != 0 {
 		t.Skipf("precondition: removes keep the emptied containers (have %d containers, %d bits)", b.Containers.Size(), b.Count())
 	}
